@@ -15,8 +15,8 @@ PROP = dict(
     level="model_checking",
     technique="TLA+ spec Samplers.tla (registry, goalThroughputConfigs, peerCount, asynchronous peer-change callback, reload path) model-checked by TLC; every generated transition replayed into the real sample.SamplerFactory with the callback started like the real peers implementations do (spec->code transition tour)",
     design_ref="DESIGN.md §5 C13",
-    level_text="TLC enumerates rules files mixing TotalThroughput, EMAThroughput and WindowedThroughput samplers with and without UseClusterSize (by destination, by rule with different field lists, by rule differing in UseClusterSize only), goals {1,2,10}, cluster sizes {1,2,3,5} changing in any order, the callback goroutine running at any later point, lazy creation before/after/between changes, and configuration reloads, and checks on the model that whenever no callback is outstanding every registered throughput instance has goal = max(1, goal div peers) iff its definition has UseClusterSize and the configured goal otherwise (RegistryGoals), and that at quiescence this holds for the sampler every worker would use (WorkerGoals). Every generated transition is executed on the real SamplerFactory (rules files loaded by the real config package, Config.Reload, ClearDynsamplers, updatePeerCounts started as `go callback()`), and GoalThroughputPerSec read from the live dynsampler-go instances must equal the model's after every step.",
-    level_note="Exhaustive only within the bound (2 destinations, <=2 downstream samplers, 1 worker in the replay / 2 in TLC, one configuration change, peers in {1,2,3,5}, goals in {1,2,10}). The unchanged tree conforms to the model with the registry key the code really computes (alternative observed-key): a sampler without UseClusterSize that shares an instance with one that has it is scaled too - open known finding C13-shared-instance-scaled, a consequence of the C12 key defect, repaired by pending_fixes/C12-dynsampler-key-full-config.diff. createSampler's three critical sections (registry, goalThroughputConfigs, updatePeerCounts) are one model step; a GetPeers error / empty peer list (count kept) is not modelled.",
+    level_text="TLC enumerates rules files mixing TotalThroughput, EMAThroughput and WindowedThroughput samplers with and without UseClusterSize (by destination, by rule with different field lists, by rule differing in UseClusterSize only, and a single cluster-size sampler with awkward tuning values that survives a reload), goals {1,2,10}, cluster sizes {1,2,3,5} changing in any order, the callback goroutine running at any later point, lazy creation before/after/between changes, and configuration reloads, and checks on the model that whenever no callback is outstanding every registered throughput instance has goal = max(1, goal div peers) iff its definition has UseClusterSize and the configured goal otherwise (RegistryGoals), and that at quiescence this holds for the sampler every worker would use (WorkerGoals). Every generated transition is executed on the real SamplerFactory (rules files loaded by the real config package, Config.Reload, ClearDynsamplers, updatePeerCounts started as `go callback()`), and GoalThroughputPerSec read from the live dynsampler-go instances must equal the model's after every step.",
+    level_note="Exhaustive only within the bound (2 destinations, <=2 downstream samplers, 1 worker in the replay / 2 in TLC, one configuration change, peers in {1,2,3,5}, goals in {1,2,10}). Since /repo commit 871b085 the code conforms to the ideal key (alternative observed-key is kept last only to name a regression). A ghost variable (has updatePeerCounts run since the registry was cleared) splits model states so that the edge tour replays creation-after-reload both with and without an intervening goal update. createSampler's three critical sections (registry, goalThroughputConfigs, updatePeerCounts) are one model step; a GetPeers error / empty peer list (count kept) is not modelled.",
     assumptions=["bounded: peers {1,2,3,5}, goals {1,2,10}, 2 destinations, one configuration change",
                  "the peers implementation calls the registered callback in a new goroutine after the membership it reports has changed (RedisPubsubPeers.checkHash, FilePeers)"],
     stages=[
